@@ -648,6 +648,9 @@ def run_case(src, tweaks, r, side, edits=None, rng=None, nedits=0, want_model=Tr
                 "observed": "written code of the " + ("copy" if side == "orig" else "original") +
                             " changed:\n" + first_diff(before, after),
                 "expected": "unchanged text"}
+    elif fail is not None and before != after and "written code" not in fail["observed"]:
+        fail = dict(fail, observed=fail["observed"] + "\nand after the edits the written code of the " +
+                    ("copy" if side == "orig" else "original") + " changed:\n" + first_diff(before, after))
     if want_model:
         out["line"] = sx([MODE, w0[0], w0[1], w0[2], w0[3], r, model_edits])
     if fail is not None:
@@ -745,7 +748,7 @@ def run(chk):
         "hold symbols) and the edit interpreter; FortranWriter as the observer of 'written code'",
         "C15.view as the abstraction of written code"]
     chk.lean()
-    n_cases = 4000 if chk.tier == "thorough" else 200
+    n_cases = 2500 if chk.tier == "thorough" else 200
     stats = {"node_class": {}, "side": {}, "edits": {}, "closed": 0, "frontend_broken": 0, "refused": {},
              "subtree_nodes_max": 0, "copy_failures": 0}
     shared = {}
